@@ -73,6 +73,7 @@ class Engine:
         self.dry = 0                        # >0 while computing loop write-sets: no obligations
         self.problems = []                  # (obligation name, reason) -> UNDECIDED
         self.contract_variants = {}
+        bm._ENGINE[0] = self
         self.depth_limit = 12
 
     # ------------------------------------------------------------------ classes
@@ -190,6 +191,9 @@ class Engine:
             return to_dyn(val)
         if kind == "int" and isinstance(val, SInt):
             return val.t
+        if kind == "int" and isinstance(val, SFunc) and val.what == "typeof":
+            tv = val.payload
+            return self.cls_term(st, tv.t if not isinstance(tv, SDyn) else PyVal.rval(tv.t))
         if kind == "bool" and isinstance(val, SBool):
             return val.t
         if kind == "str" and isinstance(val, SStr):
@@ -590,6 +594,14 @@ class Engine:
 
     def resolution_groups(self, cname, attr):
         """Partition the concrete classes below cname by what `obj.attr` resolves to."""
+        if cname in self.repo.classes:
+            base = self.repo.lookup_method(cname, attr)
+            if base is not None:
+                c = self.contracts.get(base.qualname)
+                if c is not None and c.virtual:
+                    # behavioural subtyping assumed: every override satisfies the base contract
+                    self.trusted_used.add(f"virtual contract: every override of {base.qualname} is assumed to satisfy it")
+                    return {("meth", base.qualname): [cname]}
         groups = {}
         for c in self.concrete_subclasses(cname):
             if c in self.repo.classes:
@@ -962,6 +974,9 @@ class Engine:
         cands = self.contract_variants.get(fi.qualname)
         if cands is None:
             cands = self.contract_variants[fi.qualname] = [c for c in self.contracts.values() if c.base == fi.qualname]
+        cur = (self.cur_fn or "").split("#")[0]
+        special = [c for c in cands if c.for_callers and cur in c.for_callers]
+        cands = special if special else [c for c in cands if not c.for_callers]
         if len(cands) <= 1:
             return cands[0] if cands else None
         params = fi.params
